@@ -59,6 +59,19 @@ pub open spec fn q_scan(chars: Seq<char>, i: int, start: char, escape: bool) -> 
     }
 }
 pub open spec fn quoted_end(chars: Seq<char>, p: int) -> int { q_scan(chars, p + 1, chars[p], false) }
+// the CONTENT of a quoted token: the characters between the delimiters, a doubled delimiter written once (same scan as q_scan)
+pub open spec fn unq_text(chars: Seq<char>, i: int, start: char, escape: bool) -> Seq<char>
+    decreases chars.len() - i
+{
+    if i < 0 || i >= chars.len() { Seq::<char>::empty() }
+    else if !escape && s_end_for(start, chars[i]) {
+        if i + 1 >= chars.len() { Seq::<char>::empty() }
+        else if s_escape_for(start, chars[i + 1]) { seq![chars[i]] + unq_text(chars, i + 2, start, false) }
+        else { Seq::<char>::empty() }
+    } else {
+        seq![chars[i]] + unq_text(chars, i + 1, start, !escape && chars[i] == '\\')
+    }
+}
 
 pub proof fn lemma_q_scan_bounds(chars: Seq<char>, i: int, start: char, escape: bool)
     requires 0 <= i <= chars.len()
@@ -297,9 +310,27 @@ decreases self.chars.len() - self.p,'''],
          proofs={"after#1:self.inc();": push_c, "after#2:self.inc();": push_c,
                  "after#3:self.inc();": push_c, "after#4:self.inc();": push_c})
 
-    u.fn(F, B, "unquote", ret="r", rules=[r_mutself, r_fmt], props=["C16"],
-         spec="requires self.wf(),",
-         loops=["invariant self_.wf(),\ndecreases self_.chars.len() - self_.p,"])
+    # unquote: the CONTENT of the quoted text - the characters between the delimiters, a doubled delimiter written once; it must end where quoted()
+    # ends the token (same scan: unq_text follows q_scan step by step), otherwise the two disagree on what the quoted text is
+    u.fn(F, B, "unquote", ret="r", rules=[r_mutself, r_fmt] + r_more_char, props=["C16"],
+         spec="""requires self.wf(),
+ensures
+    // nothing for text that does not open with a delimiter; otherwise the content up to the closing delimiter quoted() stops at
+    (self.p < self.chars.len() && s_delim_start(self.chars@[self.p as int])) ==> r@ == unq_text(self.chars@, self.p + 1, self.chars@[self.p as int], false),
+    !(self.p < self.chars.len() && s_delim_start(self.chars@[self.p as int])) ==> r@.len() == 0,""",
+         loops=['''invariant_except_break
+    !first ==> string@ + unq_text(self_.chars@, self_.p as int, start, escape) == unq_text(self.chars@, self.p + 1, self.chars@[self.p as int], false),
+invariant
+    self_.wf(), self_.chars == self.chars, self.p <= self_.p <= self_.chars.len(),
+    first <==> self_.p == self.p,
+    first ==> !escape && string@.len() == 0,
+    !first ==> self.p < self.chars.len() && s_delim_start(self.chars@[self.p as int]) && start == self.chars@[self.p as int],
+ensures
+    first ==> string@.len() == 0 && (self_.p == self_.chars.len() || !s_delim_start(self_.chars@[self_.p as int])),
+    !first ==> string@ == unq_text(self.chars@, self.p + 1, self.chars@[self.p as int], false),
+decreases self_.chars.len() - self_.p,'''],
+         proofs={"loop1-start": "let ghost s0 = string@; let ghost p0 = self_.p; let ghost e0 = escape;",
+                 "loop1-end": "proof { if !first && p0 != self.p { assert(string@ + unq_text(self_.chars@, self_.p as int, start, escape) =~= s0 + unq_text(self_.chars@, p0 as int, start, e0)); } else if !first { assert(string@ + unq_text(self_.chars@, self_.p as int, start, escape) =~= unq_text(self.chars@, self.p + 1, self.chars@[self.p as int], false)); } }"})
 
     u.fn(F, B, "punctuation", ret="r", rules=[r_fmt] + r_more_char, props=P,
          spec=[("requires old(self).wf(),\nensures " + SCAN_FRAME + '''
